@@ -58,15 +58,19 @@ def union_no_overlap(events1: List[Event], events2: List[Event]) -> List[Event]:
 
         if e1_p.intersects(e2_p):
             if e1.timestamp <= e2.timestamp:
-                events_union.append(e1)
-                e1_i += 1
-
-                # If e2 continues after e1, we need to split up the event so we only get the part that comes after
-                _, e2_next = _split_event(e2, e1.timestamp + e1.duration)
-                if e2_next:
-                    events2[e2_i] = e2_next
-                else:
+                e1_end = e1.timestamp + e1.duration
+                if e2.timestamp < e1_end and e2.timestamp + e2.duration <= e1_end:
+                    # e2 is entirely covered by e1, drop it but keep e1
+                    # since it might cover later events in events2 as well
                     e2_i += 1
+                else:
+                    events_union.append(e1)
+                    e1_i += 1
+
+                    # If e2 continues after e1, we need to split up the event so we only get the part that comes after
+                    _, e2_next = _split_event(e2, e1_end)
+                    if e2_next:
+                        events2[e2_i] = e2_next
             else:
                 e2_next, e2_next2 = _split_event(e2, e1.timestamp)
                 events_union.append(e2_next)
